@@ -131,13 +131,14 @@ def check_run(r, info, ff, opts, tag, n_ends=None, cyclic=False):
                              {"res": str(res), "names": names}))
         elif isinstance(res, na.Nucleic):
             cid = inf.get("strand", 0)
-            strand_q[cid] = strand_q.get(cid, 0.0) + q
             strand_p[cid] = strand_p.get(cid, 0) + (1 if "P" in names else 0)
-            if n_missed:
-                strand_q[cid] = None if True else 0
+            if n_missed or strand_q.get(cid, 0.0) is None:
+                strand_q[cid] = None  # not fully parameterised: no claim
                 all_assigned = False
                 k = f"partially-unassigned:{ff}:{inf['input']}"
                 events[k] = events.get(k, 0) + 1
+            else:
+                strand_q[cid] = strand_q.get(cid, 0.0) + q
         elif isinstance(res, aa.WAT):
             if n_missed:
                 all_assigned = False
